@@ -58,21 +58,26 @@ let rec dispatch (fn : string) (req : json) : json =
     (* decoded message or error class, the handler's state effect, and the same with a second nesting
        bound so that the harness can tell when the outcome depends on the recursion limit *)
     let data = jbytes (jfield req "data") in
-    let one fuel =
-      let st = probe_receive fuel data in
-      let eff = JObj ["failures", of_nat (probe_failures st); "processed", of_bool (probe_processed st)] in
+    let one fuel probe =
+      let eff = if probe then
+          let st = probe_receive fuel data in
+          ["effect", JObj ["failures", of_nat (probe_failures st); "processed", of_bool (probe_processed st)]]
+        else [] in
       (match decode_datagram fuel data with
-       | Inl m -> JObj ["msg", of_raw m; "effect", eff]
-       | Inr e -> JObj ["err", JStr (err_name e); "effect", eff]) in
-    let lo = one (jnat (jfield req "fuel_lo")) in
-    let hi = one (jnat (jfield req "fuel_hi")) in
+       | Inl m -> JObj (("msg", of_raw m) :: eff)
+       | Inr e -> JObj (("err", JStr (err_name e)) :: eff)) in
+    let lo = one (jnat (jfield req "fuel_lo")) false in
+    let hi = one (jnat (jfield req "fuel_hi")) true in
     JObj ["lo", lo; "hi", hi]
   | "benc" ->
     let v = to_bval (jfield req "v") in
     JObj ["defined", of_bool (enc_defined v); "bytes", of_bytes (benc v); "ref", of_bytes (ref_benc v)]
   | "encode_message" ->
+    (* "m": fields as the class holds them; "m_ref": the same message with every dictionary listed in key
+       order, for the sort-free reference encoder *)
     let m = to_message (jfield req "m") in
-    JObj ["bytes", of_bytes (encode_message m); "ref", of_bytes (ref_benc (value_of_message m));
+    let mr = to_message (jfield req "m_ref") in
+    JObj ["bytes", of_bytes (encode_message m); "ref", of_bytes (ref_benc (value_of_message mr));
           "raw", of_raw (raw_of_message m)]
   | "make_compact_ip" -> of_res of_bytes (make_compact_ip (jbytes (jfield req "address")))
   | "make_compact_address" ->
